@@ -1,11 +1,20 @@
 import Driver.Proto
 import Gotree.Spec.C14
+import Gotree.Model.C14Go
+import Gotree.Model.C14Cli
 
 namespace Gotree.Driver.C14
 open Gotree Gotree.Driver Gotree.C14
 
-def parseMetric : String → Option Metric
-  | "brlen" => some .brlen | "boots" => some .boots | "none" => some .none | _ => none
+/-- the metric as the library gets it: a name, or `int:<n>` for an integer outside the
+    three constants ("all other values will be considered as DISTANCE_METRIC_BRLEN") -/
+def parseMetric : String → Option (Metric × Int)
+  | "brlen" => some (.brlen, 0) | "boots" => some (.boots, 1) | "none" => some (.none, 2)
+  | s => if s.startsWith "int:" then
+      (match (String.ofList (s.toList.drop 4)).toInt? with
+       | some n => if n == 1 then some (.boots, 1) else if n == 2 then some (.none, 2) else some (.brlen, n)
+       | none => none)
+    else none
 
 /-- |a-b| within one rounding of b (a single float64 division on exact operands) -/
 def approx (a b : Rat) : Bool := (if a ≥ b then a - b else b - a) * (4503599627370496 : Rat) ≤ (if b ≥ 0 then b else -b)
@@ -13,27 +22,103 @@ def approx (a b : Rat) : Bool := (if a ≥ b then a - b else b - a) * (450359962
 def canonBags (b : List (List String)) : List (List String) :=
   (b.map sortStrings).mergeSort (fun x y => decide (showStrList x ≤ showStrList y))
 
-def handle (op : String) (f : List String) : Verdict :=
+def eqM (x y : List (List Rat)) : Bool :=
+  x.length == y.length && (List.zipWith (fun r s => r.length == s.length && (List.zipWith approx r s).all id) x y).all id
+
+/-- shape tags shared by the library ops (generator branches / hypotheses) -/
+def shapeTags (t : T) : List String :=
+  let uniq := t.tipNames.eraseDups.length == t.tipNames.length
+  tagIf uniq "uniq" ++ tagIf (!uniq) "dupnames" ++ tagIf t.rooted "rooted" ++
+  tagIf (t.kids.length == 1) "roottip" ++ tagIf (t.tipNames.length == 2) "twotips" ++
+  tagIf ((Go.G.ofT t).nodes.toList.zipIdx.any fun ni => ni.2 ≥ 1 && ni.1.neigh.length == 2) "single-child-node" ++
+  tagIf (t.edges.any (·.len == NIL)) "absent-length" ++ tagIf (t.edges.any (·.len == 0)) "zero-length" ++
+  tagIf (t.tipNames.any fun a => t.tipNames.any fun b => a != b && a.toNat?.isSome && a.toNat? == b.toNat?) "lookalike"
+
+/-- the entries as a multiset of (row name, column name, value): what is left to compare
+    when names repeat (rows of equal names may be listed in either order) -/
+def triples (names : List String) (m : List (List Rat)) : List String :=
+  sortStrings ((names.zip m).flatMap fun nr => (names.zip nr.2).map fun nx =>
+    escape nr.1 ++ "," ++ escape nx.1 ++ "," ++ showRat nx.2)
+
+/-! ### text of the CLI back to values (for the oracle on the implementation's own output) -/
+
+def parseBlock (lines : List String) : Option ((List String × List (List Rat)) × List String) :=
+  match lines with
+  | [] => none
+  | h :: r =>
+    match h.toNat? with
+    | none => none
+    | some n =>
+      if r.length < n then none else
+      let rows := (r.take n).map fun l => l.splitOn "\t"
+      match rows.mapM fun f => (f.drop 1).mapM Cli.parseDec with
+      | none => none
+      | some m => some ((rows.map fun f => f.headD "", m), r.drop n)
+
+def parseBlocks : Nat → List String → Option (List (List String × List (List Rat)))
+  | 0, _ => none
+  | _ + 1, [] => some []
+  | fuel + 1, ls =>
+    match parseBlock ls with
+    | none => none
+    | some (b, rest) => (parseBlocks fuel rest).map (b :: ·)
+
+def parseInTrees (s : String) : Option (Except String (List Cli.InTree)) :=
+  if s.startsWith "NOFILE" then (unescape (String.ofList (s.toList.drop 6))).map Except.error else
+  ((splitTerm "|" s).mapM fun (d : String) =>
+    if d.startsWith "!" then (unescape (String.ofList (d.toList.drop 1))).map Cli.InTree.bad
+    else (T.undump d).map Cli.InTree.good).map Except.ok
+
+def inTrees (i : Except String (List Cli.InTree)) : List Cli.InTree :=
+  match i with | .ok l => l | .error _ => []
+
+def lines (s : String) : List String := splitTerm "\n" s
+
+def handleBase (op : String) (f : List String) : Verdict :=
   match op, f with
   | "matrix", [ms, dump, itips, imat] =>
     match parseMetric ms, T.undump dump, parseStrList itips, parseRatMatrix imat with
-    | some m, some t, some tips, some mat =>
+    | some (m, mi), some t, some tips, some mat =>
       let uniq := t.tipNames.eraseDups.length == t.tipNames.length
       let (mt, mm) := matrix m t
-      let tags := tagIf uniq "uniq" ++ tagIf (mat.any (·.any (· != 0))) "nontrivial" ++ tagIf t.rooted "rooted" ++
-        tagIf (t.kids.length == 1) "roottip"
-      if !uniq then ⟨.pass, "skip-dupnames" :: tags, ""⟩
+      let go := Go.matrixGo mi t
+      let goSame := go == some (tips, mat)
+      let tags := shapeTags t ++ tagIf (mat.any (·.any (· != 0))) "nontrivial" ++
+        tagIf (mi != 0 && mi != 1 && mi != 2) "metric-other-int" ++
+        tagIf (m == .boots && t.edges.any (·.sup == NIL)) "absent-support" ++
+        tagIf goSame "fid-golevel-exact"
+      if !uniq then
+        -- outside the quantifier: no oracle; statement-level model only, entries as a multiset
+        match go with
+        | some (gt, gm) =>
+          if gt == tips && triples gt gm == triples tips mat then ⟨.pass, "tie-only-dupnames" :: tags, ""⟩
+          else ⟨.tie, tags, "dup names: statement-level model " ++ showStrList gt ++ " " ++ showRatMatrix gm⟩
+        | none => ⟨.tie, tags, "statement-level model fails"⟩
       else if !(matrixOK m t tips mat) then ⟨.oracle, tags, "matrix differs from path sums"⟩
       else if mt != tips || mm != mat then ⟨.tie, tags, "model matrix " ++ showRatMatrix mm⟩
+      else if !goSame then ⟨.tie, tags, "statement-level model differs"⟩
       else ⟨.pass, tags, ""⟩
     | _, _, _, _ => bad "C14.matrix fields"
   | "avg", [ms, dumps, res, itips, imat] =>
     match parseMetric ms, (splitTerm "|" dumps).mapM T.undump, parseStrList itips, parseRatMatrix imat with
-    | some m, some ts, some tips, some mat =>
+    | some (m, mi), some ts, some tips, some mat =>
       let sameTaxa := match ts with
         | [] => true
         | t :: r => r.all fun u => sortNames u.tipNames == sortNames t.tipNames
-      let tags := tagIf sameTaxa "sametaxa" ++ tagIf (ts.length ≥ 2) "nontrivial"
+      let uniq := ts.all fun t => t.tipNames.eraseDups.length == t.tipNames.length
+      let go := Go.avgDistanceMatrix mi ts
+      let sameOrder := match ts with
+        | [] => true
+        | t :: r => r.all fun u => u.tipNames == t.tipNames
+      let tags := tagIf sameTaxa "sametaxa" ++ tagIf (ts.length ≥ 2) "nontrivial" ++ tagIf (ts.length == 1) "one-tree" ++
+        tagIf (ts.length == 0) "no-tree" ++ tagIf (!sameOrder) "tip-order-differs" ++ tagIf (!uniq) "dupnames" ++
+        tagIf (ts.any fun t => t.kids.length == 1) "roottip" ++
+        tagIf (match ts with | [] => false | t :: r => r.any fun u => u.tipNames.length != t.tipNames.length) "tipcount-differs" ++
+        [s!"golevel-{go.cls}"]
+      let resCls := if res.startsWith "panic" then "panic" else res
+      if !uniq then
+        if go.cls == resCls then ⟨.pass, "tie-only-dupnames" :: tags, ""⟩ else ⟨.tie, tags, "dup names: statement-level outcome " ++ go.cls⟩
+      else
       -- oracle: entrywise mean of the specs
       let expect : Option (List String × List (List Rat)) :=
         match ts with
@@ -43,33 +128,143 @@ def handle (op : String) (f : List String) : Verdict :=
           let names := sortNames t.tipNames
           some (names, names.map fun a => names.map fun b =>
             (ts.map fun u => if a == b then 0 else pathSum m u a b).sum / ((ts.length : Nat) : Rat))
-      let eqM (x y : List (List Rat)) : Bool :=
-        x.length == y.length && (List.zipWith (fun r s => r.length == s.length && (List.zipWith approx r s).all id) x y).all id
-      match expect, res with
+      match expect, resCls with
       | none, "err" =>
         (match avgMatrix m ts with
-         | none => ⟨.pass, "rejected" :: tags, ""⟩
+         | none => if go.cls == "err" then ⟨.pass, "rejected" :: tags, ""⟩ else ⟨.tie, tags, "statement-level model: " ++ go.cls⟩
          | some _ => ⟨.tie, tags, "model accepts differing taxa"⟩)
-      | none, _ => ⟨.oracle, tags, "differing taxa not rejected"⟩
+      | none, _ => ⟨.oracle, tags, "differing taxa not rejected (" ++ res ++ ")"⟩
       | some _, "err" => ⟨.oracle, tags, "same taxa rejected"⟩
+      | some _, "panic" => ⟨.oracle, tags, "panic on same taxa " ++ res⟩
       | some (en, em), _ =>
         if en != tips || !(eqM mat em) then ⟨.oracle, tags, "average differs from the entrywise mean"⟩ else
         match avgMatrix m ts with
-        | some (mn, mm) => if mn == tips && eqM mat mm then ⟨.pass, tags, ""⟩ else ⟨.tie, tags, "model avg " ++ showRatMatrix mm⟩
+        | some (mn, mm) =>
+          if !(mn == tips && eqM mat mm) then ⟨.tie, tags, "model avg " ++ showRatMatrix mm⟩ else
+          (match go with
+           | .ok (gn, gm) => if gn == tips && eqM mat gm then ⟨.pass, tags, ""⟩ else ⟨.tie, tags, "statement-level avg " ++ showRatMatrix gm⟩
+           | _ => ⟨.tie, tags, "statement-level model: " ++ go.cls⟩)
         | none => ⟨.tie, tags, "model rejects"⟩
     | _, _, _, _ => bad "C14.avg fields"
   | "cut", [thrs, dump, res, ibags] =>
     match parseRat? thrs, T.undump dump, parseStrLists ibags with
     | some thr, some t, some bags =>
       let uniq := t.tipNames.eraseDups.length == t.tipNames.length
-      let tags := tagIf uniq "uniq" ++ tagIf (bags.length ≥ 2) "nontrivial" ++
-        tagIf (t.edges.any (·.len == thr)) "tie-threshold" ++ tagIf t.rooted "rooted"
-      if !uniq then ⟨.pass, "skip-dupnames" :: tags, ""⟩
+      let go := Go.cutGo thr t
+      let orderSame := match go with | .ok gb => gb == bags | _ => false
+      let tags := shapeTags t ++ tagIf (bags.length ≥ 2) "nontrivial" ++
+        tagIf (t.edges.any (·.len == thr)) "tie-threshold" ++
+        tagIf (orderSame && res == "ok") "fid-bagorder-exact" ++ tagIf (!orderSame && res == "ok") "fid-bagorder-differs" ++
+        tagIf (res == "err") "cut-err"
+      if !uniq then
+        -- outside the quantifier: the statement-level model decides (error iff two tips of
+        -- one name meet in a bag); bags compared as a set of sorted bags
+        match go, res with
+        | .ok gb, "ok" => if canonBags gb == canonBags bags then ⟨.pass, "tie-only-dupnames" :: tags, ""⟩
+                         else ⟨.tie, tags, "dup names: statement-level bags " ++ showStrLists gb⟩
+        | .err _, "err" => ⟨.pass, "tie-only-dupnames" :: "dup-rejected" :: tags, ""⟩
+        | _, _ => ⟨.tie, tags, "dup names: statement-level outcome " ++ go.cls ++ " vs " ++ res⟩
       else if res != "ok" then ⟨.oracle, tags, "cut failed on a tree with unique tips"⟩
       else if !(cutOK thr t bags) then ⟨.oracle, tags, "bags are not the components of short branches"⟩
       else if canonBags (cut thr t) != canonBags bags then ⟨.tie, tags, "model bags " ++ showStrLists (cut thr t)⟩
-      else ⟨.pass, tags, ""⟩
+      else match go with
+        | .ok gb => if canonBags gb != canonBags bags then ⟨.tie, tags, "statement-level bags " ++ showStrLists gb⟩ else ⟨.pass, tags, ""⟩
+        | _ => ⟨.tie, tags, "statement-level model: " ++ go.cls⟩
     | _, _, _ => bad "C14.cut fields"
+  | "climatrix", [mflag, avgs, outmode, dumps, exits, text] =>
+    match unescape mflag, parseInTrees dumps, exits.toInt?, unescape text with
+    | some mflag, some input, some exit, some text =>
+      let avg := avgs == "1"
+      let model := Cli.matrixCmd mflag avg input
+      let trees := (inTrees input).filterMap Cli.InTree.tree?
+      let uniq := trees.all fun t => t.tipNames.eraseDups.length == t.tipNames.length
+      let allGood := input.toBool && trees.length == (inTrees input).length
+      let tags := ["cli", "out-" ++ outmode, "exit-" ++ exits] ++ tagIf avg "avg" ++ tagIf (Cli.metricOfFlag mflag).isNone "bad-metric" ++
+        tagIf (!input.toBool) "no-input-file" ++ tagIf (!allGood && input.toBool) "bad-tree" ++ tagIf (trees.length ≥ 2) "several-trees" ++
+        tagIf (exit == 0 && text.length > 2) "nontrivial" ++ tagIf (!uniq) "dupnames"
+      -- oracle on the bytes the binary wrote: every printed block is the Spec matrix of its tree
+      let oracleOK : Bool :=
+        match Cli.metricOfFlag mflag, parseMetric (if mflag == "boot" then "boots" else mflag) with
+        | some _, some (m, _) =>
+          if !uniq || avg || exit != 0 || !allGood then true else
+          (match parseBlocks (trees.length + 2) (lines text) with
+           | some blocks => blocks.length == trees.length &&
+               (List.zipWith (fun (b : List String × List (List Rat)) t => matrixOK m t b.1 b.2) blocks trees).all id
+           | none => false)
+        | _, _ => exit != 0
+      -- oracle for --avg: same taxa give the entrywise mean (within the printed precision),
+      -- differing taxa or an unreadable tree are an error; a Go panic (exit 2) is never right
+      let taxaSame := match trees with
+        | [] => true
+        | t :: r => r.all fun u => sortNames u.tipNames == sortNames t.tipNames
+      let avgOK : Bool :=
+        match parseMetric (if mflag == "boot" then "boots" else mflag), (Cli.metricOfFlag mflag) with
+        | some (m, _), some _ =>
+          if !avg || !uniq || !input.toBool then true
+          else if !allGood || !taxaSame then exit != 0
+          else if exit != 0 then false
+          else match trees, parseBlocks 3 (lines text) with
+            | t :: _, some [b] =>
+              let names := sortNames t.tipNames
+              b.1 == names && b.2.length == names.length &&
+              (List.zipWith (fun (a : String) (row : List Rat) => row.length == names.length &&
+                (List.zipWith (fun (c : String) (x : Rat) =>
+                  let e := (trees.map fun u => if a == c then 0 else pathSum m u a c).sum / ((trees.length : Nat) : Rat)
+                  decide ((if x ≥ e then x - e else e - x) * 1000000000000 ≤ 1)) names row).all id) names b.2).all id
+            | [], some [b] => b.1.isEmpty
+            | _, _ => false
+        | _, _ => true
+      if exit == 2 then ⟨.oracle, tags, "the command panicked"⟩
+      else if !oracleOK then ⟨.oracle, tags, "printed matrix differs from path sums / metric flag accepted"⟩
+      else if !avgOK then ⟨.oracle, tags, "--avg: not the entrywise mean / differing taxa or unreadable tree not rejected"⟩
+      else if model.exit != exit.toNat || exit < 0 then ⟨.tie, tags, s!"model exit {model.exit} ({model.msg})"⟩
+      else if model.written outmode != text then ⟨.tie, tags, "model text " ++ escape (model.written outmode)⟩
+      else ⟨.pass, tags, ""⟩
+    | _, _, _, _ => bad "C14.climatrix fields"
+  | "clicut", [lflag, outmode, dumps, exits, text] =>
+    match unescape lflag, parseInTrees dumps, exits.toInt?, unescape text with
+    | some lflag, some input, some exit, some text =>
+      let lf : Option String := if lflag == "omit" then none else some (String.ofList (lflag.toList.drop 2))
+      let model := Cli.cutCmd lf input
+      let trees := (inTrees input).filterMap Cli.InTree.tree?
+      let uniq := trees.all fun t => t.tipNames.eraseDups.length == t.tipNames.length
+      let allGood := input.toBool && trees.length == (inTrees input).length
+      let thr : Option Rat := match lf with | none => some (1/2) | some s => Cli.parseDec s
+      let tags := ["cli", "out-" ++ outmode, "exit-" ++ exits] ++ tagIf lf.isNone "l-omitted" ++ tagIf thr.isNone "l-invalid" ++
+        tagIf (!input.toBool) "no-input-file" ++ tagIf (!allGood && input.toBool) "bad-tree" ++ tagIf (trees.length ≥ 2) "several-trees" ++
+        tagIf (exit == 0 && (lines text).length ≥ 2) "nontrivial" ++ tagIf (!uniq) "dupnames" ++
+        tagIf (model.written outmode == text) "fid-text-exact"
+      -- oracle: the printed groups of each tree id are the components (Spec), sizes are right
+      let oracleOK : Bool :=
+        match thr with
+        | none => exit != 0
+        | some thr =>
+          if !uniq || exit != 0 || !allGood then true else
+          let recs := (lines text).map fun l => l.splitOn "\t"
+          recs.all (fun r => r.length == 3 && (r.getD 1 "").toNat? == some ((r.getD 2 "").splitOn ",").length) &&
+          (trees.zipIdx.all fun ti =>
+            cutOK thr ti.1 ((recs.filter fun r => r.headD "" == toString ti.2).map fun r => (r.getD 2 "").splitOn ","))
+      if exit == 2 then ⟨.oracle, tags, "the command panicked"⟩
+      else if !oracleOK then ⟨.oracle, tags, "printed groups are not the components of short branches"⟩
+      else if model.exit != exit.toNat || exit < 0 then ⟨.tie, tags, s!"model exit {model.exit} ({model.msg})"⟩
+      else if sortStrings (lines (model.written outmode)) != sortStrings (lines text) then ⟨.tie, tags, "model text " ++ escape (model.written outmode)⟩
+      else ⟨.pass, tags, ""⟩
+    | _, _, _, _ => bad "C14.clicut fields"
   | _, _ => bad ("C14: unknown op " ++ op)
+
+/-- history ops: the tree was indexed and measured, then edited through the library, then
+    measured; the measurement is judged on the alpha dump AFTER the history (field 4) -/
+def handle (op : String) (f : List String) : Verdict :=
+  match op, f with
+  | "hmatrix", [ms, dump0, _hseed, dump1, itips, imat] =>
+    let v := handleBase "matrix" [ms, dump1, itips, imat]
+    { v with tags := "history" :: tagIf (dump0 != dump1) "history-changed" ++ v.tags }
+  | "hcut", [thrs, dump0, _hseed, dump1, res, ibags] =>
+    let v := handleBase "cut" [thrs, dump1, res, ibags]
+    { v with tags := "history" :: tagIf (dump0 != dump1) "history-changed" ++ v.tags }
+  | "havg", [ms, dumps0, _hseed, dumps1, res, itips, imat] =>
+    let v := handleBase "avg" [ms, dumps1, res, itips, imat]
+    { v with tags := "history" :: tagIf (dumps0 != dumps1) "history-changed" ++ v.tags }
+  | _, _ => handleBase op f
 
 end Gotree.Driver.C14
